@@ -87,15 +87,49 @@ package gmtls
 //@ (func "(*block).reserve" autoloops
 //@   (requires size (and (bvsge n 0) (bvsle n #x0000000001000000)))
 //@   (ensures cap (and (bvsge (cap (field b data)) n) (= (len (field b data)) (old (len (field b data))))))
+//@   (ensures where (or (= (obj (field b data)) (old (obj (field b data)))) (fresh-obj (field b data))))
 //@   (modifies (field b data)))
 //@ (func "(*block).resize"
 //@   (requires size (and (bvsge n 0) (bvsle n #x0000000001000000)))
 //@   (ensures len (and (= (len (field b data)) n) (bvsle n (cap (field b data)))))
+//@   (ensures where (or (= (obj (field b data)) (old (obj (field b data)))) (fresh-obj (field b data))))
 //@   (modifies (field b data)))
 
 // decrypt: for a block holding at least a record header, whatever bytes the peer sent: no panic; the sequence number
-// advances by exactly one when the record is accepted and stays put (alert bad_record_mac) when it is rejected.
+// advances by exactly one when the record is accepted and stays put (alert bad_record_mac) when it is rejected; a record
+// is accepted only after the constant-time MAC comparison returned equal (MAC suites), and without
+// any failed AEAD Open (ghost state of the library contracts: ctc.last, aead.fails).
 //@ (func "(*halfConn).decrypt" noframe split-returns
 //@   (requires blk (and (not (isnil b)) (bvsge (len (field b data)) 5) (bvsle (len (field b data)) #x0000000000100000)))
+//@   (requires sep (distinct (obj hc) (obj b) (obj (field b data)) (obj (field hc inDigestBuf))))
+//@   (ghost-havoc ctc.last aead.fails)
 //@   (ensures accepted (=> ok (= (seq64 hc) (bvadd (old (seq64 hc)) #x0000000000000001))))
+//@   (ensures macchecked (=> (and ok (not (isnil (old (field hc mac))))) (= (ghost ctc.last) 1)))
+//@   (ensures aeadchecked (=> ok (= (ghost aead.fails) (old (ghost aead.fails)))))
 //@   (ensures rejected (=> (not ok) (and (= (seq64 hc) (old (seq64 hc))) (= alertValue #x14)))))
+
+// padToBlockSize: prefix aliases the whole blocks of payload; finalBlock is one fresh block holding the rest and the
+// TLS padding (every padding byte equals the padding length minus one).
+//@ (func padToBlockSize
+//@   (requires bs (or (= blockSize 8) (= blockSize 16)))
+//@   (requires size (bvsle (len payload) #x0000000001000000))
+//@   (ensures lens (and (= (len finalBlock) blockSize) (= (bvadd (len prefix) (bvsrem (len payload) blockSize)) (len payload))
+//@                      (= (obj prefix) (obj payload)) (= (off prefix) (off payload)) (fresh-obj finalBlock)))
+//@   (ensures padding (forall ((j B64)) (=> (and (bvuge j (bvsrem (len payload) blockSize)) (bvult j blockSize))
+//@        (= (at finalBlock j) ((_ extract 7 0) (bvsub (bvsub blockSize (bvsrem (len payload) blockSize)) 1))))))
+//@   (ensures rest (forall ((j B64)) (=> (bvult j (bvsrem (len payload) blockSize))
+//@        (= (at finalBlock j) (old (at payload (bvadd (len prefix) j)))))))
+//@   (loop 1
+//@     (invariant range (and (bvsle overrun i) (bvsle i blockSize)))
+//@     (invariant done (forall ((j B64)) (=> (and (bvuge j overrun) (bvult j i)) (= (at finalBlock j) ((_ extract 7 0) (bvsub paddingLen 1))))))
+//@     (invariant kept (forall ((j B64)) (=> (bvult j overrun) (= (at finalBlock j) (old (at payload (bvadd (len prefix) j)))))))
+//@     (decreases (bvsub blockSize i))))
+
+// encrypt: the sequence number advances by exactly one per record written; no panic for a block that holds the record
+// header, the explicit IV chosen by the caller (none, or one cipher block) and any payload.
+//@ (func "(*halfConn).encrypt" noframe
+//@   (requires blk (and (not (isnil b)) (bvsge explicitIVLen 0) (bvsle explicitIVLen 16)
+//@                      (bvsge (len (field b data)) (bvadd 5 explicitIVLen)) (bvsle (len (field b data)) #x0000000000100000)))
+//@   (requires iv (=> (bvsgt explicitIVLen 0) (= explicitIVLen (cipher.bs (tag (field hc cipher)) (obj (field hc cipher))))))
+//@   (requires sep (distinct (obj hc) (obj b) (obj (field b data)) (obj (field hc outDigestBuf))))
+//@   (ensures sent (and result.0 (= (seq64 hc) (bvadd (old (seq64 hc)) #x0000000000000001)))))
